@@ -62,6 +62,12 @@ Proof. exact (decompose_clock_rates e f s). Qed.
 Theorem C04_strict_bound e f s : accepted e = true -> strict (decompose e f s) = strict s || strict_roots e.
 Proof. exact (decompose_strict e f s). Qed.
 
+(* under any interpretation of labels that reads a conjunction as a conjunction, the stored invariant together with the cost equations taken out of it
+   means what the label means *)
+Theorem C04_stored_invariant_meaning (sem : lexp -> bool) : (forall a b, sem (LAnd a b) = sem a && sem b) -> forall e, accepted e = true ->
+  forallb sem (stored e) && forallb sem (filter is_cost_rate (flat e)) = sem e.
+Proof. exact (stored_meaning sem). Qed.
+
 (* x <= 5 && (cost' == 2 && forall (y' == 0)) && (b || x' == 1) && x < 3 *)
 Example C04_rate_example :
   let e := LAnd (LAnd (LAnd (LLeaf CInvariant false 1) (LAnd (LRate true true 2 CInt) (LForall (LRate false true 3 CInt))))
